@@ -133,4 +133,21 @@ Proof.
   rewrite map_map. f_equal. f_equal. apply map_ext. intros x. apply mark_mark.
 Qed.
 
+(* the last call wins: enable after disable (or the reverse) of the same names
+   is the later call alone *)
+Lemma mark_mark2 v1 v2 P (x : rule) : mark v2 P (mark v1 P x) = mark v2 P x.
+Proof.
+  unfold mark. destruct (mem_str (rname x) P) eqn:E; simpl; rewrite E; reflexivity.
+Qed.
+
+Theorem toggle_last_wins v1 v2 names ign (r : ruler) :
+  NoDup (all_names r) ->
+  toggle v2 names ign (fst (toggle v1 names ign r)) = toggle v2 names ign r.
+Proof.
+  intros ND. rewrite (toggle_sets v1 names ign r ND). cbn [fst].
+  rewrite (toggle_sets v2 names ign r ND).
+  rewrite toggle_sets; unfold all_names; cbn [rules]; rewrite map_mark_names; [|exact ND].
+  rewrite map_map. f_equal. f_equal. apply map_ext. intros x. apply mark_mark2.
+Qed.
+
 End Order.
